@@ -10,7 +10,13 @@ Tie       every generated trajectory is saved through Trajectory.save in every f
           (ii)  XTC: the Gallina decoder reads mdtraj's file and must return the quantised integers;
           (iii) HDF5/NetCDF/NCRST/TRR/DCD/DTR: arrays read with PyTables/netCDF4/struct (not mdtraj) must be
                 exactly the float32 numbers in file units, with the unit attributes;
-          (iv)  md.load(save(t)) against t with exact rational arithmetic under the stated precision.
+          (iv)  md.load(save(t)) against t with exact rational arithmetic under the stated precision;
+          (v)   loader conversion: what md.load returns must equal GlueModel.from_file_unit of the numbers in the file
+                (float32 containers), bit for bit; the save_*/read_as_traj glue itself is regenerated from the AST into
+                Gen/CodecTables.v (src_save_glue / src_load_glue / unit factors) and obliged by Props/C01.v;
+          (vi)  Gallina readers of the CRYST1 columns and rst7 lines on mdtraj's text;
+          (vii) Python-only oracles from the format conventions: LAMMPS BOX BOUNDS, DCD header block and time axis, TRR
+                frame headers, HDF5/NetCDF container schemas.
 """
 import base64
 import os
@@ -40,7 +46,13 @@ TRUSTED = ["harness/impl/codec_impl.py (builds the trajectory from bit patterns,
            "PyTables/netCDF4/struct)",
            "generator and exact-rational comparison (fractions.Fraction) in harness/props/C01.py",
            "Python's %f / format(): correctly rounded on the exact binary value (modelled by py_fmt); float(): correctly rounded",
-           "IEEE-754 binary32 multiplication by 10.0 is correctly rounded (modelled by rnd32)"]
+           "IEEE-754 binary32 multiplication by 10.0 is correctly rounded (modelled by rnd32)",
+           "AST translator of the save_*/loader glue (read_glue: local names resolved through the nearest preceding assignment; "
+           ".pyx loaders by regular expression) and the unit factors obtained by running mdtraj.utils.unit",
+           "Python oracles written from the format conventions, without a Gallina model: LAMMPS BOX BOUNDS (lammps_box_mismatch), "
+           "DCD header block/time axis, TRR frame headers, HDF5/NetCDF container schemas (SCHEMA_STD)",
+           "NumPy: float32 array times Python float = one float32 product by float32(factor); numpy.ma (NetCDF) forms the product "
+           "in binary64 (modelled by f32_mulf / f32_mulf_via64, tied bit for bit on every loaded coordinate)"]
 ASSUMPTIONS = ["the XTC constants of the model (magicints[], FIRSTIDX, raw-float limit, magic 1995, precision 1000) are those of the format "
                "standard, hand-written in coq/Codec/XtcModel.v; obligation xtc_format_standard ties /repo's values to them",
                "comparisons of float32 coordinates with the decimal constants of _format_83 are modelled as exact rational "
@@ -58,6 +70,18 @@ STD = {
     ".nc": ("A", "bin"), ".netcdf": ("A", "bin"), ".ncdf": ("A", "bin"), ".ncrst": ("A", "bin"),
 }
 ALL_EXTS = list(STD)
+# container schemas of the format conventions (hand-written from the MDTraj HDF5 1.1 and AMBER NetCDF 1.0 specifications)
+SCHEMA_STD = {
+    ".h5": {"conv": ["Pande", "1.1"], "w": {"coordinates": 32, "time": 32, "cell_lengths": 32, "cell_angles": 32}},
+    ".nc": {"conv": ["AMBER", "1.0"], "w": {"coordinates": 32, "time": 32, "cell_lengths": 64, "cell_angles": 64},
+            "dims": {"coordinates": ["frame", "atom", "spatial"], "time": ["frame"], "cell_lengths": ["frame", "cell_spatial"],
+                     "cell_angles": ["frame", "cell_angular"]},
+            "labels": {"spatial": "xyz", "cell_spatial": "abc"}},
+    ".ncrst": {"conv": ["AMBERRESTART", "1.0"], "w": {"coordinates": 64, "time": 64, "cell_lengths": 64, "cell_angles": 64},
+               "dims": {"coordinates": ["atom", "spatial"], "time": ["time"], "cell_lengths": ["cell_spatial"],
+                        "cell_angles": ["cell_angular"]},
+               "labels": {"spatial": "xyz", "cell_spatial": "abc"}},
+}
 UNITWORD = {".h5": ("nanometers", "picoseconds", "degrees"), ".nc": ("angstrom", "picosecond", "degree"),
             ".netcdf": ("angstrom", "picosecond", "degree"), ".ncdf": ("angstrom", "picosecond", "degree"),
             ".ncrst": ("angstrom", "picosecond", "degree")}
@@ -188,8 +212,7 @@ def read_tables():
     if not savers:
         raise ValueError("translator: Trajectory._savers not understood")
     T["savers"], T["saver_cls"] = savers, saver_cls
-    # ---- conversion factor, evaluated exactly as mdtraj does
-    T["ang_per_nm"] = 10
+    # ---- conversion factors: filled in by translate() (evaluated by mdtraj's unit package on the implementation side)
     # ---- mdcrd
     s = _src("mdtraj/formats/mdcrd.py")
     T["mdcrd_w"], T["mdcrd_p"] = _fmt_wp(_one(r'out = "(%\d+\.\d+f)" % coord', s, "mdcrd coordinate format").group(1), "mdcrd")
@@ -285,7 +308,131 @@ def read_tables():
     if pr.denominator != 1:
         raise ValueError("translator: xtc precision not an integer")
     T["xtc_prec"] = int(pr)
+    T["save_glue"], T["load_glue"] = read_glue()
+    # ---- fixed-column readers: PdbStructure's CRYST1 columns, AmberRestartFile's field width
+    s = _src("mdtraj/formats/pdb/pdbstructure.py")
+    m = _one(r'elif pdb_line\.find\("CRYST1"\) == 0:\s*\n(.*?)\n\s*elif ', s, "CRYST1 reader", re.S)
+    cols = [(int(a), int(b)) for a, b in re.findall(r"float\(pdb_line\[(\d+):(\d+)\]\)", m.group(1))]
+    if len(cols) != 6:
+        raise ValueError("translator: CRYST1 reader columns not understood: %s" % cols)
+    T["cryst_read_cols"] = cols
+    s = _src("mdtraj/formats/amberrst.py")
+    s = s[s.index("class AmberRestartFile"):s.index("class AmberNetCDFRestartFile")]
+    rd = re.findall(r"float\(line\[(\w) : \1 \+ (\d+)\]\) for \1 in range\((\d+), (\d+), (\d+)\)", s)
+    ws = {int(x[1]) for x in rd} | {int(x[4]) for x in rd}
+    if len(rd) != 4 or len(ws) != 1 or sorted({(int(x[2]), int(x[3])) for x in rd}) != [(0, 3 * min(ws)), (3 * min(ws), 6 * min(ws))]:
+        raise ValueError("translator: rst7 reader slices not understood: %s" % rd)
+    T["rst7_rw"] = min(ws)
     return T
+
+
+# ---- save/load glue: what every Trajectory.save_* hands to the file class and what every loader converts back
+GLUE_ROLE = {"xyz": "xyz", "_xyz": "xyz", "time": "time", "_time": "time", "unitcell_lengths": "lengths",
+             "_unitcell_lengths": "lengths", "unitcell_angles": "angles", "_unitcell_angles": "angles",
+             "unitcell_vectors": "vectors"}
+LOADER_SITES = [("formats/hdf5.py", "HDF5TrajectoryFile"), ("formats/netcdf.py", "NetCDFTrajectoryFile"),
+                ("formats/mdcrd.py", "MDCRDTrajectoryFile"), ("formats/xyzfile.py", "XYZTrajectoryFile"),
+                ("formats/lammpstrj.py", "LAMMPSTrajectoryFile"), ("formats/gro.py", "GroTrajectoryFile"),
+                ("formats/amberrst.py", "AmberRestartFile"), ("formats/amberrst.py", "AmberNetCDFRestartFile"),
+                ("formats/pdb/pdbfile.py", "PDBTrajectoryFile"),
+                ("formats/dcd/dcd.pyx", "DCDTrajectoryFile"), ("formats/xtc/xtc.pyx", "XTCTrajectoryFile"),
+                ("formats/xtc/trr.pyx", "TRRTrajectoryFile"), ("formats/dtr/dtr.pyx", "DTRTrajectoryFile")]
+
+
+def _conv_code(frm, to):
+    """1 = Trajectory unit -> file unit, 2 = file unit -> Trajectory unit, 3 = anything else"""
+    def is_traj(s):
+        return s == "Trajectory._distance_unit"
+
+    def is_file(s):
+        return bool(re.fullmatch(r"\w+\.distance_unit", s)) and not is_traj(s)
+    if is_traj(frm) and is_file(to):
+        return 1
+    if is_file(frm) and is_traj(to):
+        return 2
+    return 3
+
+
+def read_glue():
+    """(a) for every Trajectory.save_*: every <file>.write(...) call as the list of (role of the self attribute handed
+    over, conversion code) -- local names are resolved through the nearest preceding assignment; (b) for every file
+    class: the conversion codes of the in_units_of calls of its loader (read_as_traj / load_pdb)."""
+    import ast
+    tree = ast.parse(_src("mdtraj/core/trajectory.py"))
+    tcls = [n for n in tree.body if isinstance(n, ast.ClassDef) and n.name == "Trajectory"][0]
+    save_glue = {}
+    for fn in tcls.body:
+        if not (isinstance(fn, ast.FunctionDef) and fn.name.startswith("save_")):
+            continue
+        assigns = []          # (lineno, name, value)
+        for st in ast.walk(fn):
+            if isinstance(st, ast.Assign) and len(st.targets) == 1 and isinstance(st.targets[0], ast.Name):
+                assigns.append((st.lineno, st.targets[0].id, st.value))
+
+        def resolve(e, line, depth=0):
+            """the expression with local names replaced by what was last assigned to them before `line`"""
+            out = [e]
+            if depth < 3:
+                for nm in [x for x in ast.walk(e) if isinstance(x, ast.Name)]:
+                    prev = [a for a in assigns if a[1] == nm.id and a[0] < line]
+                    if prev:
+                        out += resolve(max(prev, key=lambda a: a[0])[2], line, depth + 1)
+            return out
+
+        def classify(e, line):
+            exprs = resolve(e, line)
+            roles = [GLUE_ROLE[x.attr] for ex in exprs for x in ast.walk(ex)
+                     if isinstance(x, ast.Attribute) and isinstance(x.value, ast.Name) and x.value.id == "self" and x.attr in GLUE_ROLE]
+            if not roles:
+                return None
+            if len(set(roles)) != 1:
+                raise ValueError("translator: %s hands over an expression of several attributes: %s" % (fn.name, ast.unparse(e)))
+            calls = [x for ex in exprs for x in ast.walk(ex)
+                     if isinstance(x, ast.Call) and isinstance(x.func, ast.Name) and x.func.id == "in_units_of"]
+            code = 0
+            for c in calls:
+                a = [ast.unparse(z) for z in c.args]
+                code = max(code, _conv_code(a[1], a[2]) if len(a) >= 3 else 3)
+            return roles[0], code
+        calls = []
+        for c in ast.walk(fn):
+            if isinstance(c, ast.Call) and isinstance(c.func, ast.Attribute) and c.func.attr == "write" and isinstance(c.func.value, ast.Name):
+                items = []
+                for a in list(c.args) + [k.value for k in c.keywords]:
+                    r = classify(a, c.lineno)
+                    if r:
+                        items.append(r)
+                calls.append(sorted(set(items)))
+        if calls:
+            save_glue[fn.name] = calls
+    load_glue = {}
+    for rel, cls in LOADER_SITES:
+        s = _src("mdtraj/" + rel)
+        if rel.endswith(".pyx"):
+            m = _one(r"\n    def read_as_traj\(.*?(?=\n    def |\ncdef class |\Z)", s, "read_as_traj of " + cls, re.S)
+            body = m.group(0)
+            found = re.findall(r"in_units_of\(\s*([\w.\[\]]+)\s*,\s*([\w.]+)\s*,\s*([\w.]+)", body)
+            codes = [(v, _conv_code(a, b)) for v, a, b in found if "distance_unit" in a + b]
+        else:
+            mod = ast.parse(s)
+            fns = []
+            for node in mod.body:
+                if isinstance(node, ast.ClassDef) and node.name == cls:
+                    fns += [f for f in node.body if isinstance(f, ast.FunctionDef) and f.name == "read_as_traj"]
+                if isinstance(node, ast.FunctionDef) and node.name == "load_pdb" and cls == "PDBTrajectoryFile":
+                    fns.append(node)
+            if not fns:
+                raise ValueError("translator: loader of %s not found" % cls)
+            codes = []
+            for f in fns:
+                for c in ast.walk(f):
+                    if isinstance(c, ast.Call) and isinstance(c.func, ast.Name) and c.func.id == "in_units_of" and len(c.args) >= 3:
+                        a = [ast.unparse(z) for z in c.args]
+                        if "distance_unit" in a[1] + a[2]:
+                            codes.append((c.lineno, a[0], _conv_code(a[1], a[2])))
+            codes = [(v, k) for _l, v, k in sorted(codes)]
+        load_glue[cls] = codes
+    return save_glue, load_glue
 
 
 def check_f83_constants(T):
@@ -342,14 +489,45 @@ def render_tables(T):
           "Definition src_unit_attrs : list (string * list (string * string)) := [%s]." % "; ".join(
               "(%s, [%s])" % (q(k), "; ".join("(%s, %s)" % (q(a), q(b)) for a, b in sorted(T["unit_attrs"][k].items())))
               for k in ("h5", "nc", "ncrst")), ""]
+    L += ["(* the Python float in_units_of multiplies with (conversion_factor_to, evaluated by running mdtraj's unit",
+          "   package): value = mag * 2^exp *)",
+          "Definition nm_to_ang_mag : Z := %d.   Definition nm_to_ang_exp : Z := %d." % T["nm_to_ang"],
+          "Definition ang_to_nm_mag : Z := %d.   Definition ang_to_nm_exp : Z := %d." % T["ang_to_nm"], "",
+          "(* every <file>.write(...) call of every Trajectory.save_*: (role of the self attribute handed over, conversion):",
+          "   0 = as is, 1 = in_units_of(., Trajectory._distance_unit, <file class>.distance_unit), 2 = the reverse,",
+          "   3 = another in_units_of *)",
+          "Definition src_save_glue : list (string * list (list (string * nat))) := ["]
+    L.append(";\n".join("  (%s, [%s])" % (q(m), "; ".join("[%s]" % "; ".join("(%s, %d%%nat)" % (q(r), c) for r, c in call) for call in calls))
+                        for m, calls in sorted(T["save_glue"].items())))
+    L += ["].", "", "(* conversion codes of the in_units_of calls in each file class's loader (read_as_traj / load_pdb), source order;",
+          "   the variables converted are: %s *)" % "; ".join("%s: %s" % (c, ", ".join(v for v, _ in vs)) for c, vs in sorted(T["load_glue"].items())),
+          "Definition src_load_glue : list (string * list nat) := ["]
+    L.append(";\n".join("  (%s, [%s])" % (q(c), "; ".join("%d%%nat" % k for _v, k in vs)) for c, vs in sorted(T["load_glue"].items())))
+    L += ["].", "", "(* pdbstructure.py: float(pdb_line[a:b]) column pairs of the CRYST1 record; amberrst.py: width of float(line[j : j + w]) *)",
+          "Definition cryst_read_cols : list (nat * nat) := [%s]%%nat." % "; ".join("(%d, %d)" % c for c in T["cryst_read_cols"]),
+          "Definition rst7_rw : nat := %d." % T["rst7_rw"], ""]
     return "\n".join(L)
 
 
 def translate(ctx):
     T = read_tables()
     check_f83_constants(T)
-    if T["ang_per_nm"] != 10:
-        raise ValueError("unit factor")
+    # the factors in_units_of multiplies with: evaluated by mdtraj's own unit package (implementation side)
+    fac = ctx.run_impl("codec_impl.py", {"mode": "units", "pairs": [["nanometers", "angstroms"], ["angstroms", "nanometers"]]})["factors"]
+    for f, key in zip(fac, ("nm_to_ang", "ang_to_nm")):
+        if f["type"] != "float":
+            raise ValueError("translator: conversion factor is a %s" % f["type"])
+        neg, m, e = dec64(f["bits"])
+        if neg or m == 0:
+            raise ValueError("translator: conversion factor %s not positive" % key)
+        while m % 2 == 0:
+            m //= 2
+            e += 1
+        T[key] = (m, e)
+    k = fr64(fac[0]["bits"])
+    if k.denominator != 1:
+        raise ValueError("translator: nanometers -> angstroms factor %s is not an integer" % k)
+    T["ang_per_nm"] = int(k)
     changed = ctx.write_gen("Gen/CodecTables.v", render_tables(T))
     ctx.notes.setdefault("coverage_extra", {})["translator"] = "ok (Gen/CodecTables.v %s)" % ("rewritten" if changed else "unchanged")
     ctx.tables = T
@@ -880,6 +1058,45 @@ def check_loaded(ctx, case, tj, sv, res, mem, skip_time=False):
              {"lengths": [float(x) for x in L0], "angles": [float(x) for x in A0]}, kind="silent_diff", what="cell")
 
 
+def lammps_box_mismatch(lines, len_bits, ang_bits):
+    """Independent reading of the BOX BOUNDS block of a LAMMPS dump frame (LAMMPS manual, 'triclinic' how-to):
+    orthogonal: 'xlo xhi' per axis; triclinic: 'xlo_bound xhi_bound xy' / 'ylo_bound yhi_bound xz' / 'zlo_bound zhi_bound yz'
+    with xlo = xlo_bound - min(0, xy, xz, xy+xz), xhi = xhi_bound - max(0, xy, xz, xy+xz), ylo = ylo_bound - min(0, yz),
+    yhi = yhi_bound - max(0, yz).  The lengths (angstrom) and the cosines of the angles recovered from it must be those of the
+    cell, up to 1e-5 relative (float64 arithmetic of the writer on float32 inputs).  Returns None or (observed, expected)."""
+    import math
+    hdr = lines[0].split()
+    rows = [[float(Fr(tok)) for tok in l.split()] for l in lines[1:4]]
+    L = [float(fr32(b) * 10) for b in len_bits]
+    A = [float(fr32(b)) for b in ang_bits]
+    tol = 1e-5
+    if len(hdr) == 6:
+        if any(len(r) != 2 for r in rows):
+            return [lines, "two numbers per axis"]
+        got = [r[1] - r[0] for r in rows]
+        if any(abs(a - 90.0) > 1e-3 for a in A) or any(abs(g - w) > tol * max(1.0, abs(w)) + 4e-7 * (abs(r[0]) + abs(r[1])) for g, w, r in zip(got, L, rows)):
+            return [{"style": "orthogonal", "extents": got}, {"lengths_A": L, "angles": A}]
+        return None
+    if len(hdr) == 9 and hdr[3:6] == ["xy", "xz", "yz"]:
+        if any(len(r) != 3 for r in rows):
+            return [lines, "three numbers per axis"]
+        xy, xz, yz = rows[0][2], rows[1][2], rows[2][2]
+        xlo = rows[0][0] - min(0.0, xy, xz, xy + xz)
+        xhi = rows[0][1] - max(0.0, xy, xz, xy + xz)
+        ylo = rows[1][0] - min(0.0, yz)
+        yhi = rows[1][1] - max(0.0, yz)
+        lx, ly, lz = xhi - xlo, yhi - ylo, rows[2][1] - rows[2][0]
+        a, b, c = lx, math.sqrt(ly * ly + xy * xy), math.sqrt(lz * lz + xz * xz + yz * yz)
+        cosines = [(xy * xz + ly * yz) / (b * c), xz / c, xy / b]
+        want = [math.cos(math.radians(x)) for x in A]
+        slack = 4e-7 * max(abs(v) for r in rows for v in r)
+        if (any(abs(g - w) > tol * max(1.0, abs(w)) + slack for g, w in zip((a, b, c), L)) or
+                any(abs(g - w) > 2e-5 + slack / max(1.0, min(L)) for g, w in zip(cosines, want)) or min(lx, ly, lz) <= 0):
+            return [{"style": "triclinic", "lengths_A": [a, b, c], "cosines": cosines}, {"lengths_A": L, "cosines": want}]
+        return None
+    return [lines[0], "ITEM: BOX BOUNDS pp pp pp | ITEM: BOX BOUNDS xy xz yz pp pp pp"]
+
+
 def atoms_of(tj, i):
     f = tj["xyz"][i]
     return [f[3 * a:3 * a + 3] for a in range(tj["n_atoms"])]
@@ -934,6 +1151,11 @@ def check_text(ctx, jobs, case, tj, sv, res, mem):
             if ext == ".lammpstrj":
                 ok = (blk[0] == "ITEM: TIMESTEP" and blk[1] == str(i) and blk[2] == "ITEM: NUMBER OF ATOMS" and blk[3] == str(n)
                       and blk[4].startswith("ITEM: BOX BOUNDS") and blk[8] == "ITEM: ATOMS id type xu yu zu")
+                if ok and tj["cell"]:
+                    bad = lammps_box_mismatch(blk[4:8], mem["lengths"][3 * i:3 * i + 3], mem["angles"][3 * i:3 * i + 3])
+                    if bad:
+                        fail(ctx, case, ".lammpstrj: BOX BOUNDS do not describe the frame's unit cell (LAMMPS dump convention)", bad[0], bad[1],
+                             kind="native_value", what="cell")
                 rows = blk[9:]
                 pre = ["%d 1" % (a + 1) for a in range(n)]
             else:
@@ -991,6 +1213,9 @@ def check_text(ctx, jobs, case, tj, sv, res, mem):
             if structure(len(cr) == 1, "one CRYST1 record"):
                 jobs.add(8, [], lambda: tie_break(ctx, case, "bytes[CRYST1]", "CRYST1 record differs from the model"),
                          n32=mem["lengths"][:3] + mem["angles"][:3], txt=cr[0])
+                if all(fr32(b) * 10 < Fr(999999995, 10000) for b in mem["lengths"][:3]) and all(fr32(b) < Fr(999999, 1000) for b in mem["angles"][:3]):
+                    jobs.add(15, [], lambda: tie_break(ctx, case, "decode[CRYST1]", "model of PdbStructure's CRYST1 columns does not extract the quantised cell"),
+                             n32=mem["lengths"][:3] + mem["angles"][:3], txt=cr[0])
         else:
             structure(not cr, "no CRYST1 without cell")
         if opts.get("bfactors") is not None:
@@ -1016,6 +1241,8 @@ def check_text(ctx, jobs, case, tj, sv, res, mem):
                 nums += mem["lengths"][3 * i:3 * i + 3] + mem["angles"][3 * i:3 * i + 3]
             jobs.add(9, [1 if tj["cell"] else 0], lambda: tie_break(ctx, case, "bytes[rst7]", "coordinate/box lines differ from the model"),
                      n32=nums, txt="\n".join(lines[2:-1]))
+            jobs.add(16, [1 if tj["cell"] else 0], lambda: tie_break(ctx, case, "decode[rst7]", "model of AmberRestartFile's 12-column reader does not extract the quantised numbers"),
+                     n32=nums, txt="\n".join(lines[2:-1]))
 
 
 def check_raw(ctx, jobs, case, tj, sv, res, mem):
@@ -1040,13 +1267,48 @@ def check_raw(ctx, jobs, case, tj, sv, res, mem):
                  lambda: native(what, [b2f(b) if w == 32 else float(fr64(b)) for b in rawbits[:6]], [b2f(b) for b in xs[:6]]),
                  n32=xs, n64=rawbits, w64=w, txt=ext)
 
-    def one_nc(r, frames, unitw, skip_time=False):
+    def loader_units(rawbits, w, lo=None):
+        """the loader's conversion: what md.load returns must be from_file_unit (GlueModel.v) of the numbers in the file"""
+        lo = res.get("load") if lo is None else lo
+        if w != 32 or not lo or "err" in lo or "multi" in lo or lo.get("n_frames") != T or lo.get("n_atoms") != n or len(lo["xyz"]) != len(rawbits):
+            return
+        jobs.add(14, [w, 1 if ext in (".nc", ".netcdf", ".ncdf") else 0],
+                 lambda: tie_break(ctx, case, "load-units[%s]" % ext, "md.load does not return from_file_unit(number in the file): "
+                                            "file %s loaded %s" % ([b2f(b) if w == 32 else float(fr64(b)) for b in rawbits[:3]],
+                                                                   [b2f(b) for b in lo["xyz"][:3]])),
+                 n32=lo["xyz"], n64=rawbits, w64=w, txt=ext)
+
+    def schema(what, observed, expected):
+        if observed != expected:
+            fail(ctx, case, "%s: container layout is not the format convention's (%s)" % (ext, what), observed, expected,
+                 kind="native_schema", what=what)
+
+    def one_nc(r, frames, unitw, skip_time=False, lo=None):
         c = r.get("coordinates")
         if not c:
             native("coordinates variable", list(r), "coordinates")
             return
         xs = [b for i in frames for b in tj["xyz"][i]]
         container(xs, c["b"], c["w"], "coordinates")
+        if len(frames) == T:
+            loader_units(c["b"], c["w"])
+        elif c["w"] == 32 and lo is not None and "err" not in lo and len(lo.get("xyz", [])) == len(c["b"]):
+            jobs.add(14, [c["w"], 0], lambda: tie_break(ctx, case, "load-units[%s]" % ext, "restart loader does not return from_file_unit(file)"),
+                     n32=lo["xyz"], n64=c["b"], w64=c["w"], txt=ext)
+        # container schema of the format convention (MDTraj HDF5 1.1 / AMBER NetCDF 1.0 / AMBER NetCDF restart 1.0)
+        std = SCHEMA_STD[".nc" if ext in (".netcdf", ".ncdf") else ext]
+        schema("conventions attribute", [r.get("conventions"), r.get("convention_version")], std["conv"])
+        for name in ("coordinates", "time", "cell_lengths", "cell_angles"):
+            if r.get(name):
+                schema("%s: float width" % name, r[name]["w"], std["w"][name])
+                if "dims" in std:
+                    schema("%s: dimensions" % name, r[name].get("dims"), std["dims"][name])
+                if r.get("extra_attrs", {}).get(name):
+                    bad = [a for a in r["extra_attrs"][name] if a in ("scale_factor", "add_offset")]
+                    schema("%s: scaling attributes" % name, bad, [])
+        if "labels" in std:
+            want = {k: v for k, v in std["labels"].items() if k in (r.get("labels") or {}) or k == "spatial"}
+            schema("label variables", {k: (r.get("labels") or {}).get(k) for k in want}, want)
         if c.get("units") != unitw[0]:
             native("coordinates units attribute", c.get("units"), unitw[0])
         t = r.get("time")
@@ -1074,8 +1336,9 @@ def check_raw(ctx, jobs, case, tj, sv, res, mem):
     if ext in (".h5", ".nc", ".netcdf", ".ncdf"):
         one_nc(raw, range(T), UNITWORD[ext])
     elif ext == ".ncrst":
+        per = (res.get("load") or {}).get("multi", {})
         for fi, fn in enumerate(sorted(raw, key=lambda s: (len(s), s))):
-            one_nc(raw[fn], [fi] if T > 1 else [0], UNITWORD[ext], skip_time=T > 1)
+            one_nc(raw[fn], [fi] if T > 1 else [0], UNITWORD[ext], skip_time=T > 1, lo=per.get(fn))
     elif ext == ".xtc":
         data = base64.b64decode(res["files"]["s%d%s" % (sv["sid"], ext)]["b64"])
         times = tj["time"] if tj.get("time") is not None else [f2b(float(i)) for i in range(T)]
@@ -1095,6 +1358,17 @@ def check_raw(ctx, jobs, case, tj, sv, res, mem):
             native("frame count / natoms / magic", [(f["natoms"], f["magic"]) for f in fr], (T, n, 1993))
             return
         container(flat, [b for f in fr for b in f["x"]], fr[0]["w"], "coordinates")
+        loader_units([b for f in fr for b in f["x"]], fr[0]["w"])
+        # header fields of the GROMACS trn frame an independent reader relies on
+        fsz = fr[0]["w"] // 8
+        for i, f in enumerate(fr):
+            hdr = {"version": f["version"], "slen": f["slen"], "step": f["step"], "lambda": f["lambda"], "nre": f["nre"],
+                   "sizes": f["sizes"]}
+            want = {"version": "GMX_trn_file", "slen": 13, "step": i, "lambda": 0, "nre": 0,
+                    "sizes": [0, 0, 9 * fsz, 0, 0, 0, 0, 3 * n * fsz, 0, 0]}
+            if hdr != want:
+                schema("trn frame header", hdr, want)
+                break
         got = [fr32(f["time"]) if f["w"] == 32 else fr64(f["time"]) for f in fr]
         if got != [fr64(b) for b in mem["time"]]:
             native("time", [float(x) for x in got], [float(fr64(b)) for b in mem["time"]])
@@ -1112,6 +1386,7 @@ def check_raw(ctx, jobs, case, tj, sv, res, mem):
             native("POSITION field (3*n_atoms floats)", [None if p is None else len(p.get("b", [])) for p in pos], 3 * n)
             return
         container(flat, [b for p in pos for b in p["b"]], 32, "coordinates (POSITION)")
+        loader_units([b for p in pos for b in p["b"]], 32)
         tms = [f["items"].get("CHEMICAL_TIME") for f in fr]
         got = [None if t is None else fr64(t["b"][0]) for t in tms]
         keys = [fr64(f["key_time"]) for f in fr]
@@ -1138,6 +1413,23 @@ def check_raw(ctx, jobs, case, tj, sv, res, mem):
             native("frame count / natoms", (len(fr), raw["natoms"], raw["nset_header"]), (T, n, T))
             return
         container(flat, [b for f in fr for b in f["x"]], 32, "coordinates")
+        loader_units([b for f in fr for b in f["x"]], 32)
+        # CHARMM header block, title and atom-count records (32-bit Fortran record markers are checked by the reader)
+        h = dict(raw["header"])
+        delta = fr32(h.pop("delta_bits"))
+        istart, nsavc = h.pop("istart"), h.pop("nsavc")
+        if h.pop("nstep") != istart + T * nsavc:       # NSTEP: steps elapsed at the last frame (CHARMM / VMD convention)
+            schema("DCD header NSTEP", raw["header"]["nstep"], istart + T * nsavc)
+        h["trailing"] = raw["trailing"]
+        want = {"hdr_len": 84, "nfixed": 0, "fourdims": 0, "charmm_version": 24, "ntitle": h["ntitle"], "title_len": 4 + 80 * h["ntitle"],
+                "natom_rec_len": 4, "unused_zero": True, "trailing": 0}
+        schema("DCD header", h, want)
+        lo = res.get("load") or {}
+        if "err" not in lo and lo.get("n_frames") == T:
+            # the header's ISTART / NSAVC / DELTA give the frames' time axis; it must be the one mdtraj reports for the file
+            tt = [(istart + i * nsavc) * delta for i in range(T)]
+            if nsavc < 1 or tt != [fr64(b) for b in lo["time"]]:
+                native("time axis (ISTART, NSAVC, DELTA of the header)", [float(x) for x in tt], [float(fr64(b)) for b in lo["time"]])
         if bool(raw["has_cell"]) != bool(tj["cell"]):
             native("unit cell flag", raw["has_cell"], bool(tj["cell"]))
         elif tj["cell"]:
